@@ -58,6 +58,7 @@ class Recorder:
         self.name = agent.name
         self.calls = 0
         self.log = []
+        self.after = None  # optional hook(signal), run after the real agent answered (C07: in-place rewrites)
 
     def express(self, signal):
         self.calls += 1
@@ -67,6 +68,8 @@ class Recorder:
             self.log.append("raise")
             raise
         self.log.append(getattr(out, "action_type", "<no action_type>"))
+        if self.after is not None:
+            self.after(signal)
         return out
 
 
